@@ -16,7 +16,10 @@ partial def loop (h : IO.FS.Stream) (out : IO.FS.Stream) : IO Unit := do
   let line ← h.getLine
   if line.isEmpty then return ()
   let line := if line.back == '\n' then (line.dropEnd 1).copy else line
-  out.putStrLn (dispatch line)
+  if line == "flush" then
+    out.flush
+  else
+    out.putStrLn (dispatch line)
   loop h out
 
 def main : IO Unit := do
